@@ -484,6 +484,56 @@ class BuildersProp(core.Prop):
         model_ok = ms == 1
         return core.Verdict(wire.enc(outs), model_ok, is_ == 1, detail)
 
+    def extra_checks(self, tier, rng, report):
+        """round 6 (runtime only, no model): a registered factory that FAILS with a KeyError of its own at its n-th
+        call (a name table shorter than the number of that character in the layout).  The builders count the agents
+        of a character with a dictionary and a `try / except KeyError`; the factory's exception is not theirs to
+        handle: both layout builders must let it through, and must not hand back a simulation."""
+        Sim = sim_class()
+        done = 0
+        for _ in range(400):
+            if done >= (40 if tier == "quick" else 400):
+                break
+            desc = gen_desc(rng)
+            listing = layout_listing(desc["cells"], desc["cols"], desc["reg"])
+            counts = {}
+            for ch, n, _, _ in listing:
+                counts[ch] = max(counts.get(ch, 0), n + 1)
+            many = sorted(ch for ch, k in counts.items() if k >= 2)
+            if not many or any(ch in "._0" for ch, _ in desc["reg"]):
+                continue
+            ch0 = rng.choice(many)
+            at = rng.randrange(1, counts[ch0])
+            done += 1
+
+            def registry():
+                reg = make_registry(desc["reg"])
+                inner = reg[ch0]
+
+                def failing(n):
+                    if n == at:
+                        return {}["name table of %s has no entry %d" % (ch0, n)]      # a KeyError of the factory's own
+                    return inner(n)
+                reg[ch0] = failing
+                return reg
+            d = dict(desc, factory_fault=[ch0, at])
+            arr = np.array(desc["cells"], dtype=str).reshape(desc["rows"], desc["cols"])
+            path = _layout_path()
+            with open(path, "w", newline="") as f:
+                f.write(make_text(desc["cells"], desc["rows"], desc["cols"], "plain"))
+            for what, build in (("array", lambda: Sim.build_sim_from_array(arr, registry())),
+                                ("file", lambda: Sim.build_sim_from_file(path, registry()))):
+                try:
+                    build()
+                    report.runtime_failure("the %s builder returned a simulation although the registered factory raised "
+                                           "KeyError at its call number %d" % (what, at), d)
+                except KeyError:
+                    pass
+                except Exception as ex:  # noqa: BLE001
+                    report.runtime_failure("the %s builder turned the factory's KeyError into %s"
+                                           % (what, type(ex).__name__), d)
+        report.notes["factory_fault_builds"] = done
+
     def finding_matchers(self):
         return {}
 
